@@ -287,7 +287,12 @@ extract_slice_indices (PyObject* index, size_t& start, size_t& end,
     }
     else if (PyInt_Check (index))
     {
-        size_t i = canonical_index (PyInt_AsSsize_t(index), totalLength);
+        // an integer that does not fit Py_ssize_t is out of range
+        // for any array: IndexError, as for a Python sequence
+        Py_ssize_t pi = PyNumber_AsSsize_t (index, PyExc_IndexError);
+        if (pi == -1 && PyErr_Occurred())
+            boost::python::throw_error_already_set();
+        size_t i = canonical_index (pi, totalLength);
         start = i;
         end   = i + 1;
         step  = 1;
